@@ -265,7 +265,7 @@ const transmitTimeout = 500 * time.Millisecond
 func (w *world) opts(id string) hcluster.Options {
 	dir := filepath.Join(w.cl.Base, id)
 	return hcluster.Options{ID: id, Dir: dir, HeartbeatTimeout: 500 * time.Millisecond, ElectionTimeout: 500 * time.Millisecond, LeaderLease: 400 * time.Millisecond,
-		NoSnapshotOnClose: true, SnapshotThreshold: 1 << 20, SnapshotInterval: time.Hour,
+		NoSnapshotOnClose: true, SnapshotThreshold: 20, SnapshotInterval: 300 * time.Millisecond,
 		Tune: func(st *store.Store) {
 			w.mu.Lock()
 			w.insts[id]++
